@@ -5,6 +5,9 @@
 //! Part 2: every sub-command of every family (enumerated from `--help`) on valid, truncated,
 //!         mutated, garbage, empty and nonexistent inputs; the library's own in-process reading
 //!         of the same bytes (in a supervised worker) is the oracle for "must exit non-zero".
+//! Part 3: the content of every output produced with exit 0 (converted files, exports, listings,
+//!         verdicts) against what the library produces in-process for the same input and options;
+//!         stale outputs of the same size, option order, display flags (part3.rs).
 mod damage;
 mod fixtures;
 mod help;
@@ -180,9 +183,25 @@ fn main() {
          encryption, CRCs, attributes, directory names with \\ and /) → list/info/tree vs Archive::list/get_info and extract vs \
          Archive::read_file. part 2: every (sub-command template × base file × damage) of a deterministic grid (valid, truncated, \
          byte-mutated, u32 field overwritten, garbage, garbage behind a valid magic, empty, nonexistent) plus proptest damage. \
+         part 3 (output content): conv = every converting sub-command (m2 convert / skin-convert / anim-convert, wmo / adt / wdt / wdl \
+         convert, blp convert both ways) × base files (part 2's plus seeded variants of every format) × every version name the help \
+         text or the library's name table offers (plus one invalid) × blp options (version × format × alpha bits × --no-mipmaps × \
+         filter × dxt quality, and unrepresentable combinations) × damage × what the output path held before (nothing / a different \
+         result of the same size / longer / shorter) × command-line arrangement (options permuted and moved around the positionals) × \
+         -v/-q/-vv; dbc = generated tables (1–6 fields of 9 types, arrays, 0–40 rows, strings with commas and quotes) × export \
+         json/csv to file/stdout, list (limit, schema), info, discover (-o), analyze; rebuild / compare (six kinds of second archive × \
+         flags × three output formats) / validate (intact, 8 stored bytes of one file inverted) / info tables / extract --patch (one or \
+         two patches, named and missing names) / extract -f on the four fixture archives and on generated ArchiveSpecs; wdt tiles in \
+         three formats; flags = 30 info/validate/tree/list commands × valid and damaged inputs × subsets of their display flags in two \
+         arrangements. \
          class = part : template or create options : damage kind : library verdict : exit class. non-trivial = the library rejects \
-         the damaged bytes, or an extraction names a missing file, or a multi-sector/directory round trip; distinct = class signature.",
+         the damaged bytes, or an extraction names a missing file, or a multi-sector/directory round trip, or (part 3) the content of \
+         an output was compared with the library's result; distinct = class signature.",
     );
+    check.assume("part 3: the expected content is what the library returns in-process for the same bytes and the options the command line states (oracle worker, Entry::P3); option → library-argument mapping follows --help and CHANGELOG 0.6.0 (blp alpha-bit auto-detection), not the tool's source; WDL version names whose layout is the tool's own choice ('tbc', numeric) are not generated");
+    check.assume("part 3: image outputs are compared as decoded RGBA8 pixels (encoder settings are not content); JSON exports as parsed values (key order is hash-map order); f32 values bitwise after parsing the printed number; durations, line order, tree drawing and the order of inline [k:v] lists are not content when two arrangements of one command line are compared");
+    check.assume("part 3: 'display flags' (-v -q -w -d --no-color --compact --show-* ...; part3.rs flag_cmds) are the ones --help describes as changing only what is shown; a failing run must stay failing with them, a passing run on an undamaged input must stay passing; on damaged inputs a run that asks for more detail may fail where the short one passes (counted, not judged)");
+    check.assume("part 3: content of free-form text (info, tree, debug, patch-chain) and of `dbd convert` is not judged (counters content-not-judged:<cmd>, reasons in part3_content_judgement); `dbc discover`'s guessed field types are heuristics and not judged");
     check.assume("the library entry point sequence per sub-command (oracle.rs Entry) was transcribed from warcraft-rs/src/commands/*.rs; a command that starts calling a different parser needs its Entry updated");
     check.assume("an exit status other than 0 (including a panic's 101 or death by signal) counts as 'non-zero'; crash-freedom is not this property");
     check.assume("`mpq db` is excluded (manages a user database, not an input file); dbd convert has no in-process oracle (wow-cdbc 'cli' feature is not built into the harness), only its output and nonexistent-path behaviour are judged");
